@@ -4,6 +4,7 @@ package c01
 import (
 	"fmt"
 	"math"
+	"sort"
 
 	"verif/internal/props/c02"
 
@@ -188,6 +189,67 @@ func pairFamily(name string, A, B [][][]oracle.Pt, f float64, off oracle.Pt, eps
 	}
 }
 
+// sharedEdgeFamily: P = two triangles on one common edge e (the edge is covered twice by P),
+// Q = a triangle on the same edge (third coincident segment, from the other operand) plus a
+// further triangle T that may cross the bundle and split it at a point that is not representable.
+// edges: unordered lattice point pairs; apexes: every lattice point not on the line of e.
+func sharedEdgeFamily(name string, L []oracle.Pt, T [][]oracle.Pt, eps, delta float64) fw.Family {
+	type edge struct {
+		u, v oracle.Pt
+		off  []oracle.Pt
+	}
+	var edges []edge
+	var cum []int64
+	var n int64
+	for i := range L {
+		for j := i + 1; j < len(L); j++ {
+			e := edge{u: L[i], v: L[j]}
+			for _, a := range L {
+				if oracle.Orient(e.u, e.v, a) != 0 {
+					e.off = append(e.off, a)
+				}
+			}
+			k := int64(len(e.off))
+			edges = append(edges, e)
+			cum = append(cum, n)
+			n += k * (k - 1) / 2 * k * int64(len(T))
+		}
+	}
+	data := func(i int64) ([]float64, []float64) {
+		ei := sort.Search(len(cum), func(k int) bool { return cum[k] > i }) - 1
+		e := edges[ei]
+		i -= cum[ei]
+		k := int64(len(e.off))
+		t := T[i%int64(len(T))]
+		i /= int64(len(T))
+		b := e.off[i%k]
+		i /= k
+		// i indexes the unordered apex pair
+		var a1, a2 oracle.Pt
+		for x := int64(0); x < k; x++ {
+			if i < k-1-x {
+				a1, a2 = e.off[x], e.off[x+1+i]
+				break
+			}
+			i -= k - 1 - x
+		}
+		return oracle.ClosedData([]oracle.Pt{e.u, e.v, a1}, []oracle.Pt{e.u, e.v, a2}), oracle.ClosedData([]oracle.Pt{e.u, e.v, b}, t)
+	}
+	set, unset := withEps(eps)
+	return fw.Family{
+		Name: name, N: n,
+		Setup: set, Teardown: unset,
+		Check: func(i int64, r *fw.R) {
+			pd, qd := data(i)
+			checkPair(r, pd, qd, delta, 1e-3, 1, false)
+		},
+		Desc: func(i int64) string {
+			pd, qd := data(i)
+			return fmt.Sprintf("P=%s Q=%s eps=%g", oracle.Fmt(pd), oracle.Fmt(qd), eps)
+		},
+	}
+}
+
 func single(cs [][]oracle.Pt) [][][]oracle.Pt {
 	out := make([][][]oracle.Pt, len(cs))
 	for i, c := range cs {
@@ -281,6 +343,7 @@ func families(tier string) []fw.Family {
 		pairFamily("square with two holes (L7, every 7th) x bars", twoHoled, bars, 1, oracle.Pt{}, 1e-8, 1e-6, false),
 		pairFamily("tri(L4)/rot x zero-area spikes(L4)", tri4q, spikes4, 1, oracle.Pt{}, 1e-8, 1e-6, false),
 		pairFamily("zero-area spikes(L4) x tri(L4)/rot", spikes4, tri4q, 1, oracle.Pt{}, 1e-8, 1e-6, false),
+		sharedEdgeFamily("two triangles on a common edge x (triangle on that edge + tri(L3)/rot)", L3, oracle.ContoursModRotation(L3, 3), 1e-8, 1e-6),
 		pairFamily("tri(L3)xtri(L3)", tri3, tri3, 1, oracle.Pt{}, 1e-8, 1e-6, false),
 		pairFamily("rectilinear-holed(L5)xrect(L5)", holedQ, rectsQ, 1, oracle.Pt{}, 1e-8, 1e-6, false),
 		pairFamily("rect(L5)xrectilinear-holed(L5)", rectsQ, holedQ, 1, oracle.Pt{}, 1e-8, 1e-6, false),
